@@ -27,12 +27,12 @@ Theorem kb_commits token' kbpol hdr claims jwt' ds' kb jwt ds alg0 :
   Forall (fun x => contains tilde x = false) (jwt' :: ds') -> contains tilde kb = false ->
   Forall (fun x => contains tilde x = false) (jwt :: ds) ->
   (forall h' kc, verify_kb O kb (jget "cnf" claims) = Val (h', kc) -> jget "sd_hash" kc = JStr (o_hash O alg0 (serialise jwt ds ""))) ->
-  (forall a alg, jget "_sd_alg" claims = JStr a -> parse_halg a = Some alg -> alg = alg0) ->
+  (forall alg, declared_halg claims = Some alg -> alg = alg0) ->
   jwt' = jwt /\ ds' = ds.
 Proof.
   intros Hinj Hv Hp Htok Ht' Hkb Ht Hsd Halg.
-  destruct (accepted_commits O token' kbpol hdr claims ds' jwt' kb Hv Hp) as (h' & kc & a & alg & Hvk & Ha & Hh & Hs).
-  rewrite (Hsd h' kc Hvk) in Hs. rewrite (Halg a alg Ha Hh) in Hs. injection Hs as Hs. apply Hinj in Hs.
+  destruct (accepted_commits O token' kbpol hdr claims ds' jwt' kb Hv Hp) as (h' & kc & alg & Hvk & Hh & Hs).
+  rewrite (Hsd h' kc Hvk) in Hs. rewrite (Halg alg Hh) in Hs. injection Hs as Hs. apply Hinj in Hs.
   rewrite Htok, drop_kb_serialise in Hs by assumption.
   destruct (serialise_inj jwt ds jwt' ds' Ht Ht' Hs) as [-> ->]. auto.
 Qed.
